@@ -483,7 +483,7 @@ func (x *Extractor) install() {
 		}
 		// closures capture free variables: not produced by the generator for providers
 		res := fn.Signature.Results()
-		fallible := res.Len() > 0 && res.At(res.Len()-1).Type().String() == "error"
+		fallible := res.Len() > 0 && types.Unalias(res.At(res.Len()-1).Type()).String() == "error"
 		nres := res.Len()
 		if fallible {
 			nres--
@@ -617,7 +617,7 @@ func ExtractInjectorOpt(e *Engine, pkg *ssa.Package, f *ssa.Function, opt Extrac
 		prog: &CProgram{Func: f.Name(), Provs: map[string]int{}, Flds: map[string]bool{}}}
 	sig := f.Signature
 	res := sig.Results()
-	x.prog.HasErrRes = res.Len() > 0 && res.At(res.Len()-1).Type().String() == "error"
+	x.prog.HasErrRes = res.Len() > 0 && types.Unalias(res.At(res.Len()-1).Type()).String() == "error"
 	x.prog.NParams = sig.Params().Len()
 	x.install()
 	defer func() {
